@@ -315,6 +315,57 @@ unsafe fn libc_exit(code: i32) -> ! {
     unsafe { _exit(code) }
 }
 
+/// C16: the integer-epoch unit heuristic through the public parser: `epoch <decimal> <expected|none>`.
+/// exit 3 = the parser's answer differs from the expected epoch second.
+fn epoch_case(text: &str, expected: &str) -> i32 {
+    use snel_db::shared::time::{TimeKind, TimeParser};
+    let got = TimeParser::parse_str_to_epoch_seconds(text, TimeKind::DateTime);
+    let want: Option<i64> = if expected == "none" { None } else { expected.parse().ok() };
+    println!("TimeParser::parse_str_to_epoch_seconds({text:?}) = {got:?}, expected {want:?}");
+    if got == want { 0 } else { 3 }
+}
+
+/// C17: operator precedence of WHERE expressions through the real parser. The three inputs must
+/// parse to Or(And(a,b),c), Or(a,And(b,c)) and And(Not(a),b). exit 3 = a different tree.
+fn precedence_case() -> i32 {
+    use snel_db::command::parser::command::parse_command;
+    use snel_db::command::types::{Command, Expr};
+    fn shape(e: &Expr) -> String {
+        match e {
+            Expr::And(a, b) => format!("And({},{})", shape(a), shape(b)),
+            Expr::Or(a, b) => format!("Or({},{})", shape(a), shape(b)),
+            Expr::Not(a) => format!("Not({})", shape(a)),
+            Expr::Compare { field, .. } => field.clone(),
+            Expr::In { field, .. } => field.clone(),
+        }
+    }
+    let cases = [
+        ("QUERY e WHERE a = 1 AND b = 2 OR c = 3", "Or(And(a,b),c)"),
+        ("QUERY e WHERE a = 1 OR b = 2 AND c = 3", "Or(a,And(b,c))"),
+        ("QUERY e WHERE NOT a = 1 AND b = 2", "And(Not(a),b)"),
+        ("QUERY e WHERE NOT (a = 1 OR b = 2) AND c = 3", "And(Not(Or(a,b)),c)"),
+        ("QUERY e WHERE a = 1 AND (b = 2 OR c = 3)", "And(a,Or(b,c))"),
+    ];
+    let mut rc = 0;
+    let mut lines = Vec::new();
+    for (text, want) in cases {
+        let got = match parse_command(text) {
+            Ok(Command::Query { where_clause: Some(w), .. }) => shape(&w),
+            other => format!("{other:?}").chars().take(60).collect(),
+        };
+        if got != want {
+            rc = 3;
+            lines.push(format!("{text:?} parses as {got}, expected {want}"));
+        }
+    }
+    if rc == 0 {
+        println!("all {} precedence samples parse to the expected trees", cases.len());
+    } else {
+        println!("{}", lines.join("; "));
+    }
+    rc
+}
+
 /// C19 native witness: real WalCleaner with the global configuration is not available here,
 /// so this case only exercises deletion with the cut-off (non-conservative default path).
 fn main() {
@@ -329,6 +380,8 @@ fn main() {
         Some("allocstep") if args.len() >= 4 => allocstep(args[2].parse().unwrap(), args[3].parse().unwrap()),
         Some("history") if args.len() >= 3 => history(&args[2]),
         Some("calendar2") if args.len() >= 5 => calendar2_case(args[2].parse().unwrap(), args[3].parse().unwrap(), args[4].parse().unwrap()),
+        Some("epoch") if args.len() >= 4 => epoch_case(&args[2], &args[3]),
+        Some("precedence") => precedence_case(),
         Some("stringcell") if args.len() >= 3 => stringcell(&args[2]),
         Some("surf") if args.len() >= 6 => surf_case(
             args[2].parse().unwrap(),
